@@ -1,5 +1,5 @@
 """C11 — resource paths, shadowing and back-links stay consistent."""
-from harness import gen_tree, spec_tree
+from harness import gen_tree, spec_tree, spec_poptree
 
 MODEL = 'tree'
 RULE = ('seeded random histories over 1-4 declared ResourceMaps and 1-7 handles: 1-22 steps of '
@@ -73,3 +73,24 @@ def stats(scenarios, impl_obs):
     d['shadowed_handle_lines'] = sum(1 for obs in impl_obs for o in obs
                                      if o.startswith('hnd ') and o.split()[2] != '0')
     return d
+
+
+# ---------------------------------------------------------------------------- trees built by the populator
+class _PopStream(spec_poptree.Stream):
+    """every map / handle reachable in a tree the DirectoryResourcePopulator built records its container and
+    its name, one kind per name - the property holds for every way a tree gets built"""
+    PID = 'C11'
+    KEEP = ('map', 'hnd', 'end-dump', 'link', 'end-links', 'res', 'unbound')
+
+
+def stream_for(lines):
+    return _PopStream if spec_poptree.is_pop_scenario(lines) else None
+
+
+def extra_checks(ctx):
+    spec_poptree.run_stream(
+        ctx, _PopStream, 250 if ctx.tier == 'quick' else 4000,
+        'the C16 scenarios (real directory trees, rules, options, repeated population, pre-existing content) run '
+        'through the populator; after every population the whole reachable tree is dumped and judged by C11\'s '
+        'back-link and one-kind clauses (predicates on the dump), and compared with the Lean pop model')
+
